@@ -71,6 +71,14 @@ Step ==
                                   /\ UNCHANGED <<fate, meta, committing>>
             [] t.ev = "Marks" -> /\ out' = out \cup {[run |-> t.run, n |-> t.n, v |-> v] : v \in MarksViol(t)}
                                  /\ UNCHANGED <<fate, meta, committed, committing>>
+            \* an OffsetCommit request the broker received (at Stop): it must not pass an unfinished record and must belong to a consumed partition
+            [] t.ev = "BrokerCommit" ->
+                 /\ out' = out \cup
+                      {[run |-> t.run, n |-> t.n, v |-> [kind |-> "broker_commit_past_unfinished", id |-> q, other |-> t.offset, info |-> ""]] :
+                         q \in {x \in Ids : fate[x] = "inflight" /\ meta[x].topic = t.topic /\ meta[x].part = t.part /\ meta[x].off < t.offset}}
+                      \cup (IF \E x \in Ids : fate[x] # "unread" /\ meta[x].topic = t.topic /\ meta[x].part = t.part THEN {}
+                            ELSE {[run |-> t.run, n |-> t.n, v |-> [kind |-> "broker_commit_foreign", id |-> 0, other |-> t.offset, info |-> ""]]})
+                 /\ UNCHANGED <<fate, meta, committed, committing>>
             [] t.ev = "End" -> /\ out' = IF t.idle THEN out ELSE out \cup {[run |-> t.run, n |-> t.n,
                                               v |-> [kind |-> "not_idle", id |-> 0, other |-> 0, info |-> ""]]}
                                /\ UNCHANGED <<fate, meta, committed, committing>>
